@@ -84,7 +84,7 @@ def substitutable(e: ast.AST, extra: Iterable[str] = ()) -> bool:
             return False
         if isinstance(n, (ast.Await, ast.Yield, ast.YieldFrom, ast.NamedExpr, ast.ListComp, ast.SetComp, ast.DictComp, ast.GeneratorExp, ast.Lambda)):
             return False
-    if isinstance(e, (ast.List, ast.Dict, ast.Set)):
+    if any(isinstance(n, (ast.List, ast.Dict, ast.Set)) for n in ast.walk(e)):
         return False  # a fresh mutable object: its identity matters
     return True
 
@@ -114,6 +114,11 @@ def canon(e: ast.AST) -> Tuple[str, bool]:
         if type(op) in _SWAP:
             op = _SWAP[type(op)]()
             l, r = r, l
+        if isinstance(op, ast.LtE):
+            # a <= b  ==  not (b < a)   (total orders; NaN is outside the domain of these guards)
+            op = ast.Lt()
+            l, r = r, l
+            flip = not flip
         if isinstance(op, (ast.Eq, ast.Is)) and ast.unparse(l) > ast.unparse(r):
             l, r = r, l
         if isinstance(op, ast.In) and isinstance(r, (ast.Tuple, ast.List, ast.Set)) and all(isinstance(x, ast.Constant) for x in r.elts):
